@@ -53,6 +53,9 @@ type shadow struct {
 	slot   []int
 	hits   int64
 	misses int64
+	// env: observed state of the environment that is not part of the cache's contract but
+	// that its next Reset will meet: where each shared underlying reader was left
+	env string
 }
 
 func (s *shadow) clone() *shadow {
@@ -68,6 +71,7 @@ func (s *shadow) key() string {
 	for i := range s.lru {
 		fmt.Fprintf(&sb, "%d@%d,", s.lru[i], s.slot[i])
 	}
+	sb.WriteString(s.env)
 	return sb.String()
 }
 
@@ -106,11 +110,20 @@ type lruEnv struct {
 	c       LruCase
 	files   [2][]byte
 	handles [2]*os.File
+	shared  [2]*bytes.Reader
 }
 
 func (e *lruEnv) reader(i int) io.ReadSeeker {
 	if e.c.Reader == "file" {
 		return e.handles[i]
+	}
+	if e.c.Reader == "bytes-shared" {
+		// one reader per file for the life of the cache, left wherever its last user moved
+		// it (what a pool that caches its readers hands out)
+		if e.shared[i] == nil {
+			e.shared[i] = bytes.NewReader(e.files[i])
+		}
+		return e.shared[i]
 	}
 	return bytes.NewReader(e.files[i])
 }
@@ -221,6 +234,16 @@ func (e *lruEnv) step(lf lrufile.File, m *shadow, o lop) (*fail, stepInfo) {
 		}
 		m.file, m.off, m.lru, m.slot, m.hits, m.misses = other, 0, nil, nil, 0, 0
 	}
+	if e.c.Reader == "bytes-shared" {
+		m.env = "|env"
+		for i := range e.shared {
+			pos := -1
+			if e.shared[i] != nil {
+				pos = len(e.files[i]) - e.shared[i].Len()
+			}
+			m.env += fmt.Sprintf(":%d", pos)
+		}
+	}
 	after := lf.Stats()
 	if after.Hits != m.hits || after.Misses != m.misses {
 		return &fail{"lru-model-divergence:stats", fmt.Sprintf("after %v: Stats()=%+v, model hits=%d misses=%d (resident before: see path)", o, after, m.hits, m.misses)}, info
@@ -303,6 +326,7 @@ func runLruCase(w *runner.W, c LruCase, r *runner.Rec) {
 		}
 	}
 	fresh := func() (lrufile.File, *shadow, *fail) {
+		e.shared = [2]*bytes.Reader{}
 		lf, err := lrufile.New(int64(c.Chunk), c.Entries)
 		if err != nil {
 			return nil, nil, &fail{"lru-new-error", err.Error()}
